@@ -201,6 +201,9 @@ class ThreadWorker(base.Worker):
             acceptor = partial(self.accept, server)
             self.poller.register(sock, selectors.EVENT_READ, acceptor)
 
+        # heartbeat at least twice per timeout (the arbiter hands us timeout / 2)
+        interval = min(1.0, self.timeout or 1.0)
+
         while self.alive:
             # notify the arbiter we are alive
             self.notify()
@@ -208,7 +211,7 @@ class ThreadWorker(base.Worker):
             # can we accept more connections?
             if self.nr_conns < self.worker_connections:
                 # wait for an event
-                events = self.poller.select(1.0)
+                events = self.poller.select(interval)
                 for key, _ in events:
                     callback = key.data
                     callback(key.fileobj)
@@ -218,7 +221,7 @@ class ThreadWorker(base.Worker):
                                       return_when=futures.FIRST_COMPLETED)
             else:
                 # wait for a request to finish
-                result = futures.wait(self.futures, timeout=1.0,
+                result = futures.wait(self.futures, timeout=interval,
                                       return_when=futures.FIRST_COMPLETED)
 
             # clean up finished requests
